@@ -12,8 +12,12 @@ from native import refeval
 from native.gen import Gen
 
 
-def skey(f, memo=None):
-    """structural key of a formula, independent of object identity and of the environment"""
+COMMUTATIVE = (op.AND, op.OR, op.PLUS, op.TIMES, op.IFF, op.EQUALS, op.BV_AND, op.BV_OR, op.BV_XOR, op.BV_ADD, op.BV_MUL)
+
+
+def skey(f, memo=None, commutative=False):
+    """structural key of a formula, independent of object identity and of the environment
+    (commutative=True: also independent of the order of the arguments of commutative operators)"""
     memo = {} if memo is None else memo
     st = [f]
     while st:
@@ -55,7 +59,12 @@ def skey(f, memo=None):
         if nt == op.ARRAY_VALUE:
             # the assignments are a map: their order (by object id) is specific to an environment
             ck = (ck[0], tuple(sorted(zip(ck[1::2], ck[2::2]), key=repr)))
-        memo[id(n)] = (nt, pl, ck, tuple(memo[id(k)] for k in extra))
+        if commutative and nt in COMMUTATIVE:
+            ck = tuple(sorted(ck, key=repr))
+        ek = tuple(memo[id(k)] for k in extra)
+        if commutative and nt in (op.FORALL, op.EXISTS):
+            ek = tuple(sorted(ek, key=repr))
+        memo[id(n)] = (nt, pl, ck, ek)
     return memo[id(f)]
 
 
